@@ -85,7 +85,7 @@ PROPS.update({
         "assumptions": [INVERT, "packets are genuine packets of one object (an erasure code makes no promise on corrupted payloads)"],
     },
     "C02": {
-        "thm_modules": ["Rq.Thm.C02"],
+        "thm_modules": ["Rq.Thm.C02", "Rq.Thm.C02b"],
         "engines": [("decblk", "release"), ("decblk", "debug"), ("overhead", "release"), ("fastpath", "release"), ("fastpath", "debug")],
         "modelled": [SOLVER],
         "assumptions": ["the counter generator_too_weak_singular_sets is raised when fewer than 10 certified singular sets were seen in a run"],
@@ -119,9 +119,9 @@ PROPS.update({
 })
 PROPS.update({
     "C16": {
-        "thm_modules": ["Rq.Thm.C16"],
+        "thm_modules": ["Rq.Thm.C16", "Rq.Thm.C16s"],
         "engines": [("matrices", "release"), ("matrices", "debug")],
-        "modelled": ["Dense: refinement to the bit array proved for every operation and every admissible sequence", "Sparse: code-shaped Lean model (Model/Sparse.lean) tied to the Rust sparse matrix and to the same bit array by the correspondence run; its refinement proof is staged (Thm/C16s.lean when present)"],
+        "modelled": ["Dense and Sparse: code-shaped Lean models (Model/BitMat.lean, Model/Sparse.lean); refinement to the bit array proved for every operation of both (Thm/C16, Thm/C16s) and, for Dense, for every admissible sequence", "Vec<u64>/Vec<u16> storage as arrays/lists of naturals; the ImmutableListMap column index as an array of row lists (order canonicalised)"],
         "assumptions": ["preconditions = the explicit assert!/unimplemented! of the code, the crate's debug_indexed_column_valid rule, and 'undefined left of start_col'; tracked on a shadow array by the generator", "count_ones(row, w, w) (empty range at the very end) is outside the claimed interface"],
     },
     "C07": {
